@@ -243,6 +243,19 @@ def _k_singletons(c) -> CaseInfo:
     for cid, attr in named.items():
         if cid in order:
             need(getattr(CalendarSystem, attr) is objs[cid], "calendar-singleton/static-property", cid)
+    # the other lazily created shared objects: the UTC zone, the tzdb provider and its source, fixed zones by offset
+    from pyoda_time import DateTimeZone, DateTimeZoneProviders, Offset
+    from pyoda_time.time_zones._tzdb_date_time_zone_source import TzdbDateTimeZoneSource
+
+    u = DateTimeZone.utc
+    need(u is DateTimeZone.utc and u.id == "UTC" and u == DateTimeZone.for_offset(Offset.zero), "singleton/utc")
+    prov = DateTimeZoneProviders.tzdb
+    need(prov is DateTimeZoneProviders.tzdb, "singleton/tzdb-provider")
+    need(TzdbDateTimeZoneSource.default is TzdbDateTimeZoneSource.default, "singleton/tzdb-source")
+    for k, cid in enumerate(order[:3]):
+        secs = (len(cid) * 900 * (k + 1)) % 64800
+        a, b = DateTimeZone.for_offset(Offset.from_seconds(secs)), DateTimeZone.for_offset(Offset.from_seconds(secs))
+        need(a == b and a.id == b.id and a.get_utc_offset(Z.inst(0)).seconds == secs, "singleton/for_offset", f"{secs}")
     return CaseInfo(len(order) > len(set(order)), "singletons")
 
 
